@@ -472,6 +472,11 @@ func (b *bitstream) validateAnnotatedValue(remainingLength uint64) error {
 		return &SyntaxError{"an annotation cannot be the enclosed value of another annotation", b.pos}
 	}
 
+	if code == bitcodeFalse && length <= 1 {
+		// A bool keeps its value in the low nibble, not a length: nothing follows its tag.
+		length = 0
+	}
+
 	// Adjust remainingLength because we just processed the first byte of the annotated data.
 	remainingLength--
 
